@@ -185,8 +185,8 @@ for _nm, _props in (("act_top", ["C03", "C02", "C06", "C08", "C15", "C05", "C01"
         if _nm == "act_top" and _sh not in (0, 2):
             continue        # top-level forms do not accumulate: two shapes are enough
         U("lex_%s_s%d" % (_nm, _sh), tu="lexer", harness="harness/lex_act.c", entry="h_" + _nm, func="scanner rule actions (%s), qputc/qput/qbeg/qend/qstr/trim_whitespace" % _nm,
-          defs={"quick": ["-DTOKN=4", "-DSCRATCH_SHAPE=%d" % _sh], "thorough": ["-DTOKN=6", "-DSCRATCH_SHAPE=%d" % _sh]}, cbmc=unw(50) + NOOOM,
-          label="bounded(token text <= 4 bytes quick / 6 thorough over all bytes; scratch buffer shape %d of 5: unallocated / empty / 7 bytes / one byte left / full)" % _sh,
+          defs={"quick": ["-DTOKN=%d" % (7 if _nm == "act_env" else 4), "-DSCRATCH_SHAPE=%d" % _sh], "thorough": ["-DTOKN=%d" % (8 if _nm == "act_env" else 6), "-DSCRATCH_SHAPE=%d" % _sh]}, cbmc=unw(50) + NOOOM,
+          label="bounded(token text <= 4 bytes quick / 6 thorough (substitutions: 7 / 8, so that NAME:-default forms exist) over all bytes; scratch buffer shape %d of 5: unallocated / empty / 7 bytes / one byte left / full)" % _sh,
           props=_props, cost=80, trusted=LEXTRUST, replay="replay/lex_string.c" if _nm in ("act_dq", "act_sq") else None,
           not_for=["C15"] if _nm in ("act_dq", "act_sq") else (["C01"] if _nm == "act_ccomment" else []),      # the shared obligation "returns the token kind of its form" carries the comment tag too; comments have their own units
           tiers=("quick", "thorough") if (_sh in (0, 2, 4) or (_sh == 1 and _nm == "act_linecomment")) else ("thorough",))
